@@ -22,7 +22,10 @@ MANIFEST = {
             '0 <= a < n) and unit_vector_wrap (a = n gives e_0); find_correct (f(first index) / f(e) / raw (nf, f(ix)) for the '
             'default, f-only, cs_f-only and both-given forms, public or secret a, bits or not, empty lists); gcp2_correct / gcp2_zero. The models are tied to '
             '/repo/mpyc/runtime.py on every run by exact comparison with the real functions on shared random tapes, and the '
-            'real functions are compared with an independent plain-Python oracle on the same inputs.',
+            'real functions are compared with an independent plain-Python oracle on the same inputs. The same functions also run in the '
+            'multi-party simulator (m=1 asynchronous, m=3 t=1, m=5 t=2, m=3 PRSS off; more in the thorough tier) on genuinely '
+            'shared inputs (mpc.input), opened and compared with the oracle and the Coq model, incl. an aliasing stream '
+            '(the caller mutates the list it passed before awaiting) and the in-package list-reusing caller runtime._norm.',
     'note': 'Value level (single party; operator overloading makes the routines party independent); arithmetic in Z with field '
             'reduction modelled only at the masked openings (all other values are bits or sums of three bits). The field-level '
             'a >> f is modelled by exact integer division (only executed for integral a, hypothesis 2^f | A). to_bits holds under '
@@ -38,7 +41,9 @@ MANIFEST = {
             'ordinary cases of the oracle and of the model (C30_find_both_correct, C30_find_empty); still open: F-C30-3 '
             'to_bits(nonintegral secfxp, l > bit_length) is wrong although the assert admits l <= bit_length + frac_length '
             '(C30_to_bits_l_gt_bit_length_refuted). '
-            'np_add_bits / np_to_bits / np_find / np_unit_vector are not covered.',
+            'In the simulator the tape of to_bits / trailing_zeros is genuinely distributed and not observable: there the model is '
+            'evaluated on an arbitrary no-wrap tape (the result is tape independent by the theorems; for trailing_zeros only the '
+            'specified prefix up to the lowest 1 is compared). np_add_bits / np_to_bits / np_find / np_unit_vector are not covered.',
     'technique': 'Coq proof by induction over the recursion structure + vm_compute correspondence on shared tapes + exhaustive small-domain oracle',
 }
 
@@ -131,6 +136,39 @@ class Tape:
         self.bits_mode, self.div_mode = bits_mode, div_mode
 
 
+# argument forms: python callables and their Coq counterparts (values as lists)
+def find_forms(nlen):
+    return {
+        'none': (None, None, 'None', 'None', lambda i: [i], True),
+        'f_int': (lambda i: 3 * i + 1, None, '(Some (fun i => [3 * i + 1]))', 'None', lambda i: [3 * i + 1], True),
+        'f_tuple': (lambda i: (i, i * i), None, '(Some (fun i => [i; i * i]))', 'None', lambda i: [i, i * i], True),
+        'f_list': (lambda i: [nlen - i], None, '(Some (fun i => [%d - i]))' % nlen, 'None', lambda i: [nlen - i], True),
+        'f_pow': (lambda i: 2**i, None, '(Some (fun i => [2 ^ i]))', 'None', lambda i: [2**i], False),
+        'cs_int': (None, lambda b, i: i + b, 'None', '(Some (fun b i => [i + b]))', lambda i: [i], True),
+        'cs_pow': (None, lambda b, i: (b + 1) << i, 'None', '(Some (fun b i => [(b + 1) * 2 ^ i]))', lambda i: [2**i], False),
+        'cs_tuple': (None, lambda b, i: (i + b, (b + 1) * 2**i), 'None', '(Some (fun b i => [i + b; (b + 1) * 2 ^ i]))',
+                     lambda i: [i, 2**i], False),
+        'cs_list': (None, lambda b, i: [nlen - i - b], 'None', '(Some (fun b i => [%d - i - b]))' % nlen,
+                    lambda i: [nlen - i], True),
+        'both': (lambda i: [2 * i], lambda b, i: [2 * (i + b)], '(Some (fun i => [2 * i]))', '(Some (fun b i => [2 * (i + b)]))',
+                 lambda i: [2 * i], True),
+        'both_int': (lambda i: 3 * i + 1, lambda b, i: 3 * (i + b) + 1, '(Some (fun i => [3 * i + 1]))',
+                     '(Some (fun b i => [3 * (i + b) + 1]))', lambda i: [3 * i + 1], True),
+        'both_tuple': (lambda i: (i, 5 - i), lambda b, i: (i + b, 5 - i - b), '(Some (fun i => [i; 5 - i]))',
+                       '(Some (fun b i => [i + b; 5 - i - b]))', lambda i: [i, 5 - i], True),
+    }
+
+def find_e_forms(nlen):
+    return {
+        'default': ({}, 'EStr 0', nlen),
+        'raw': ({'e': None}, 'ERaw', None),
+        'minus1': ({'e': -1}, 'EVal (-1)', -1),
+        'len-1': ({'e': 'len(x)-1'}, 'EStr (-1)', nlen - 1),
+        'val': ({'e': nlen + 3}, 'EVal %d' % (nlen + 3), nlen + 3),
+    }
+
+
+
 def exc_name(e):
     n = type(e).__name__
     return {'ZeroDivisionError': 'ZeroDiv', 'ValueError': 'Value', 'TypeError': 'Type', 'IndexError': 'Index',
@@ -146,17 +184,39 @@ def run(ctx):
         sys.argv = argv
     ok = ctx.build(['MPyC.Bits', 'MPyC.FindUnit']) and ctx.check_props()
     rng = ctx.rng
+    st = State(ctx)
     mpc.run(mpc.start())
     tape = Tape(mpc, rng)
     tape.install()
     try:
-        _run(ctx, mpc, tape, rng, ok)
+        _run(ctx, mpc, tape, rng, st)
     finally:
         tape.uninstall()
         mpc.run(mpc.shutdown())
+    _sim_streams(ctx, rng, st)
+    _evaluate(ctx, st, ok)
 
 
-def _run(ctx, mpc, tape, rng, ok):
+class State:
+    """Coq expressions + the implementation's canonical results, and the capped violation reporter."""
+
+    def __init__(self, ctx):
+        self.ctx = ctx
+        self.exprs, self.expect = [], []
+        self.seen_sig = {}
+
+    def violation(self, sig, detail):
+        # at most 3 replay files per failing class
+        self.seen_sig[sig] = self.seen_sig.get(sig, 0) + 1
+        if self.seen_sig[sig] <= 3:
+            self.ctx.violation(sig, detail)
+
+    def model(self, expr, impl, key, what):
+        self.exprs.append(expr)
+        self.expect.append((impl, key, what))
+
+
+def _run(ctx, mpc, tape, rng, st):
     ctx.rule = ('case = (function, type, inputs, tape); add_bits: all pairs of bit vectors of length <= 5 + random <= 16/64; '
                 'to_bits: all a of SecInt(8)/SecFxp(8,4)/GF(2^8)/GF(101) x several l, random for 16/32/64 bits; '
                 'unit_vector: all (a, n), n <= 20, a <= n; find: all bit lists of length <= 7 x argument forms '
@@ -164,15 +224,7 @@ def _run(ctx, mpc, tape, rng, ok):
                 'non-trivial = not an empty/zero-length input')
     ctx.explanation = ('theorems by induction over the recursions for all lengths; models compared exactly with the real '
                        'functions on the same random tape, and the real functions with a plain-Python oracle')
-    exprs, expect = [], []      # Coq expressions and the implementation's canonical results
-    seen_sig = {}
-    _violation = ctx.violation
-
-    def violation(sig, detail):
-        # at most 3 replay files per failing class
-        seen_sig[sig] = seen_sig.get(sig, 0) + 1
-        if seen_sig[sig] <= 3:
-            _violation(sig, detail)
+    violation, model = st.violation, st.model
 
     def out(v):
         """Open a (list of) secure value(s) / plain ints to ints."""
@@ -194,10 +246,6 @@ def _run(ctx, mpc, tape, rng, ok):
         if isinstance(u, int):
             return u
         return int(u)     # finite field element
-
-    def model(expr, impl, key, what):
-        exprs.append(expr)
-        expect.append((impl, key, what))
 
     def signed(v, p):
         return v if v <= p // 2 else v - p
@@ -531,36 +579,7 @@ def _run(ctx, mpc, tape, rng, ok):
         do_unit_vector(secint16, a, n, 'unit_vector random n<=256')
 
     # ---------------------------------------------------------------- find
-    # argument forms: python callables and their Coq counterparts (values as lists)
-    def forms(nlen):
-        return {
-            'none': (None, None, 'None', 'None', lambda i: [i], True),
-            'f_int': (lambda i: 3 * i + 1, None, '(Some (fun i => [3 * i + 1]))', 'None', lambda i: [3 * i + 1], True),
-            'f_tuple': (lambda i: (i, i * i), None, '(Some (fun i => [i; i * i]))', 'None', lambda i: [i, i * i], True),
-            'f_list': (lambda i: [nlen - i], None, '(Some (fun i => [%d - i]))' % nlen, 'None', lambda i: [nlen - i], True),
-            'f_pow': (lambda i: 2**i, None, '(Some (fun i => [2 ^ i]))', 'None', lambda i: [2**i], False),
-            'cs_int': (None, lambda b, i: i + b, 'None', '(Some (fun b i => [i + b]))', lambda i: [i], True),
-            'cs_pow': (None, lambda b, i: (b + 1) << i, 'None', '(Some (fun b i => [(b + 1) * 2 ^ i]))', lambda i: [2**i], False),
-            'cs_tuple': (None, lambda b, i: (i + b, (b + 1) * 2**i), 'None', '(Some (fun b i => [i + b; (b + 1) * 2 ^ i]))',
-                         lambda i: [i, 2**i], False),
-            'cs_list': (None, lambda b, i: [nlen - i - b], 'None', '(Some (fun b i => [%d - i - b]))' % nlen,
-                        lambda i: [nlen - i], True),
-            'both': (lambda i: [2 * i], lambda b, i: [2 * (i + b)], '(Some (fun i => [2 * i]))', '(Some (fun b i => [2 * (i + b)]))',
-                     lambda i: [2 * i], True),
-            'both_int': (lambda i: 3 * i + 1, lambda b, i: 3 * (i + b) + 1, '(Some (fun i => [3 * i + 1]))',
-                         '(Some (fun b i => [3 * (i + b) + 1]))', lambda i: [3 * i + 1], True),
-            'both_tuple': (lambda i: (i, 5 - i), lambda b, i: (i + b, 5 - i - b), '(Some (fun i => [i; 5 - i]))',
-                           '(Some (fun b i => [i + b; 5 - i - b]))', lambda i: [i, 5 - i], True),
-        }
-
-    def e_forms(nlen):
-        return {
-            'default': ({}, 'EStr 0', nlen),
-            'raw': ({'e': None}, 'ERaw', None),
-            'minus1': ({'e': -1}, 'EVal (-1)', -1),
-            'len-1': ({'e': 'len(x)-1'}, 'EStr (-1)', nlen - 1),
-            'val': ({'e': nlen + 3}, 'EVal %d' % (nlen + 3), nlen + 3),
-        }
+    forms, e_forms = find_forms, find_e_forms
 
     def do_find(xs, a, asec, bits, ename, fname, stype=secint8):
         nlen = len(xs)
@@ -644,7 +663,395 @@ def _run(ctx, mpc, tape, rng, ok):
             xs = [1 - a] * pos + [rng.randrange(2) for _ in range(n - pos)]
         do_find(xs, a, rng.random() < 0.5, True, rng.choice(enames), rng.choice(fnames), stype=secint16)
 
-    # ---------------------------------------------------------------- model evaluation
+
+
+
+# --------------------------------------------------------------------------------------------
+# multi-party streams (lib.sim): genuinely shared inputs (mpc.input), m = 1 (-M1, asynchronous), 3, 5, PRSS off
+
+def _signed(v, p):
+    return v if v <= p // 2 else v - p
+
+
+def _sim_cases(rng, n_scale):
+    """Deterministic list of case specs for one configuration."""
+    C = []
+    rb = lambda n: [rng.randrange(2) for _ in range(n)]
+    for _ in range(6 * n_scale):
+        n = rng.choice([0, 1, 2, 3, 5, 7, 8, 9, 16])
+        C.append(('add_bits', rb(n), rb(n), rng.random() < 0.5))
+    C.append(('add_bits', [1] * 8, [1] + [0] * 7, True))
+    for A in [0, 1, -1, 127, -128, 85, -86] + [rng.randrange(-128, 128) for _ in range(5 * n_scale)]:
+        C.append(('to_bits', 'int8', A, rng.choice([None, None, 8, rng.randrange(9)])))
+    for A in [0, -1, 2**15 - 1, -2**15] + [rng.randrange(-2**15, 2**15) for _ in range(2 * n_scale)]:
+        C.append(('to_bits', 'int16', A, rng.choice([None, 16, rng.randrange(17)])))
+    for A in [0, 16, -16, 48, 44, -3, 127, -128] + [rng.randrange(-128, 128) for _ in range(3 * n_scale)]:
+        C.append(('to_bits', 'fxp84', A, rng.choice([None, None, 8, 3, 4, 5])))
+    for a in [0, 1, 255, 0x53] + [rng.randrange(256) for _ in range(2 * n_scale)]:
+        C.append(('to_bits_fld', 256, a, rng.choice([None, 8, 3])))
+    for a in [0, 1, 100, 64] + [rng.randrange(101) for _ in range(2 * n_scale)]:
+        C.append(('to_bits_fld', 101, a, rng.choice([None, 7, 4, 1])))
+    for _ in range(4 * n_scale):
+        n = rng.choice([0, 1, 3, 8, 13])
+        C.append(('from_bits', rb(n) if rng.random() < 0.8 else [rng.randrange(-2, 3) for _ in range(n)]))
+    for A in [5, -3, 0, 127, -128] + [rng.randrange(-128, 128) for _ in range(3 * n_scale)]:
+        C.append(('from_to', A, rng.choice([8, 8, rng.randrange(1, 9)])))
+    for A in [0, 1, 2, 12, -128, 64, 96, -2, 40] + [rng.randrange(-128, 128) for _ in range(6 * n_scale)]:
+        C.append(('tz', A, rng.choice([None, None, 8, rng.randrange(0, 8)])))
+    for (A, B) in [(12, 40), (0, 0), (0, 64), (-128, 0), (1, 2), (96, 80), (-2, 6)] + \
+                  [(rng.randrange(-128, 128) << rng.randrange(4) & 0x7f, rng.randrange(-128, 128)) for _ in range(5 * n_scale)]:
+        C.append(('gcp2', A, B, rng.choice([None, None, 8, rng.randrange(0, 8)])))
+    for n in [1, 2, 3, 5, 7, 8, 12] + [rng.randrange(1, 21) for _ in range(2 * n_scale)]:
+        for a in sorted({0, n - 1, n, rng.randrange(n)}):
+            C.append(('uv', a, n))
+    fnames, enames = list(find_forms(0)), list(find_e_forms(0))
+
+    def pick_forms(nlen):
+        while True:
+            en, fn = rng.choice(enames), rng.choice(fnames)
+            e_val = find_e_forms(nlen)[en][2]
+            if e_val is None or e_val >= 0 or find_forms(nlen)[fn][5]:
+                return en, fn
+    for _ in range(14 * n_scale):
+        n = rng.choice([0, 1, 2, 3, 4, 5, 7, 8, 9])
+        a = rng.randrange(2)
+        xs = rb(n) if rng.random() < 0.7 else [1 - a] * n
+        C.append(('find', xs, a, rng.random() < 0.6, True) + pick_forms(n))
+    for _ in range(4 * n_scale):
+        n = rng.choice([0, 1, 3, 6])
+        xs = [rng.randrange(-2, 3) for _ in range(n)]
+        C.append(('find', xs, rng.choice(xs) if xs and rng.random() < 0.6 else 2, rng.random() < 0.5, False) + pick_forms(n))
+    # aliasing: the caller mutates the list it passed, straight after the call and before anything is awaited
+    for fn in ('from_bits', 'sum', 'if_else', 'vector_add', 'vector_sub', 'scalar_mul', 'schur_prod', 'in_prod',
+               'add_bits', 'find', 'output'):
+        for mode in ('reverse', 'del_last', 'append', 'overwrite'):
+            n = rng.choice([3, 5, 8])
+            C.append(('alias', fn, mode, rb(n), rb(n)))
+    for A in (5, -3, 100):
+        for mode in ('reverse', 'del_last_reverse', 'append', 'overwrite'):
+            C.append(('alias_to_from', A, mode))
+    # the in-package caller that reuses the to_bits list in place: runtime._norm (secfxp reciprocal / division)
+    for A in [16, 24, -16, 127, -128, 1, -1, 37, -90]:
+        C.append(('norm', A))
+    for A in [16, 40, -24, 100]:
+        C.append(('recip', A))
+    return C
+
+
+def _mutate(x, mode, one):
+    if mode == 'reverse':
+        x.reverse()
+    elif mode == 'del_last':
+        del x[-1]
+    elif mode == 'del_last_reverse':
+        del x[-1]
+        x.reverse()
+    elif mode == 'append':
+        x.append(one)
+    elif mode == 'overwrite':
+        x[0] = x[0] + one
+
+
+def _sim_prog(cases):
+    async def prog(mpc, mods, pid):
+        T = {'int8': mpc.SecInt(8), 'int16': mpc.SecInt(16), 'fxp84': mpc.SecFxp(8, 4)}
+        F = {256: mpc.SecFld(2**8), 101: mpc.SecFld(101)}
+        secint8, secfxp84 = T['int8'], T['fxp84']
+        meta = {'p': {k: int(v.field.modulus) for k, v in T.items()},
+                'pp101': int(mpc.SecInt(l=1 + F[101].bit_length).field.modulus), 'bl101': F[101].bit_length}
+
+        def share(stype, vals):
+            """Genuinely shared values: party 0 is the sender."""
+            if not vals:
+                return []
+            if stype.frac_length:
+                return [mpc.input(stype(v / 2**stype.frac_length), senders=0) for v in vals]
+            return mpc.input([stype(v) for v in vals], senders=0)
+
+        async def opn(v):
+            if isinstance(v, (list, tuple)):
+                vs = list(v)
+                sec = [u for u in vs if hasattr(u, 'share')]
+                got = await mpc.output(sec) if sec else []
+                it = iter(got)
+                return [_canon(next(it)) if hasattr(u, 'share') else _canon(u) for u in vs]
+            if hasattr(v, 'share'):
+                return _canon(await mpc.output(v))
+            return _canon(v)
+
+        res = [meta]
+        for c in cases:
+            kind = c[0]
+            try:
+                if kind == 'add_bits':
+                    _, xb, yb, ysec = c
+                    x = share(secint8, xb)
+                    y = share(secint8, yb) if ysec else list(yb)
+                    r = await opn(mpc.add_bits(x, y))
+                elif kind == 'to_bits':
+                    _, tn, A, l_arg = c
+                    a = share(T[tn], [A])[0]
+                    r = await opn(mpc.to_bits(a) if l_arg is None else mpc.to_bits(a, l_arg))
+                elif kind == 'to_bits_fld':
+                    _, q, a, l_arg = c
+                    a = share(F[q], [a])[0]
+                    r = await opn(mpc.to_bits(a) if l_arg is None else mpc.to_bits(a, l_arg))
+                elif kind == 'from_bits':
+                    r = await opn(mpc.from_bits(share(secint8, c[1])))
+                elif kind == 'from_to':
+                    _, A, l = c
+                    r = await opn(mpc.from_bits(mpc.to_bits(share(secint8, [A])[0], l)))
+                elif kind == 'tz':
+                    _, A, l_arg = c
+                    a = share(secint8, [A])[0]
+                    r = await opn(mpc.trailing_zeros(a) if l_arg is None else mpc.trailing_zeros(a, l_arg))
+                elif kind == 'gcp2':
+                    _, A, B, l_arg = c
+                    a, b = share(secint8, [A, B])
+                    r = await opn(mpc.gcp2(a, b) if l_arg is None else mpc.gcp2(a, b, l=l_arg))
+                elif kind == 'uv':
+                    _, a, n = c
+                    r = await opn(mpc.unit_vector(share(secint8, [a])[0], n))
+                elif kind == 'find':
+                    _, xs, a, asec, bits, ename, fname = c
+                    pf, pcs = find_forms(len(xs))[fname][:2]
+                    kw = dict(find_e_forms(len(xs))[ename][0])
+                    if pf is not None:
+                        kw['f'] = pf
+                    if pcs is not None:
+                        kw['cs_f'] = pcs
+                    if not bits:
+                        kw['bits'] = False
+                    x = share(secint8, xs)
+                    aa = share(secint8, [a])[0] if asec else a
+                    rr = mpc.find(x, aa, **kw)
+                    if ename == 'raw':
+                        nf, y = rr
+                        y = list(y) if isinstance(y, (list, tuple)) else [y]
+                        r = ['raw', await opn(nf), await opn(y)]
+                    else:
+                        y = list(rr) if isinstance(rr, (list, tuple)) else [rr]
+                        r = ['val', await opn(y)]
+                elif kind == 'alias':
+                    _, fn, mode, xb, yb = c
+                    x, y = share(secint8, xb), share(secint8, yb)
+                    cbit, one = share(secint8, [1, 1])
+                    if fn == 'from_bits':
+                        z = mpc.from_bits(x)
+                    elif fn == 'sum':
+                        z = mpc.sum(x)
+                    elif fn == 'if_else':
+                        z = mpc.if_else(cbit, x, y)
+                    elif fn == 'vector_add':
+                        z = mpc.vector_add(x, y)
+                    elif fn == 'vector_sub':
+                        z = mpc.vector_sub(x, y)
+                    elif fn == 'scalar_mul':
+                        z = mpc.scalar_mul(cbit + 2, x)
+                    elif fn == 'schur_prod':
+                        z = mpc.schur_prod(x, y)
+                    elif fn == 'in_prod':
+                        z = mpc.in_prod(x, y)
+                    elif fn == 'add_bits':
+                        z = mpc.add_bits(x, y)
+                    elif fn == 'find':
+                        z = mpc.find(x, 0)
+                    elif fn == 'output':
+                        z = mpc.output(x)
+                    _mutate(x, mode, one)           # before anything is awaited
+                    r = [_canon(u) for u in await z] if fn == 'output' else await opn(z)
+                elif kind == 'alias_to_from':
+                    _, A, mode = c
+                    a, one = share(secint8, [A, 1])
+                    x = mpc.to_bits(a)
+                    z = mpc.from_bits(x)
+                    _mutate(x, mode, one)
+                    r = await opn(z)
+                elif kind == 'norm':
+                    a = share(secfxp84, [c[1]])[0]
+                    v = mpc._norm(a)
+                    r = [float(await mpc.output(v)), float(await mpc.output(a * v))]
+                elif kind == 'recip':
+                    a = share(secfxp84, [c[1]])[0]
+                    r = [float(await mpc.output(1 / a))]
+            except Exception as e:  # noqa
+                r = exc_name(e)
+            res.append(r)
+        return res
+    return prog
+
+
+def _canon(u):
+    if isinstance(u, float):
+        assert u == int(u), u
+        return int(u)
+    return int(u)
+
+
+def _sim_streams(ctx, rng, st):
+    from lib.sim import Sim
+    violation, model = st.violation, st.model
+    configs = [(1, 0, False), (3, 1, False), (5, 2, False), (3, 1, True)]
+    if ctx.tier == 'thorough':
+        configs += [(2, 0, False), (4, 1, False), (5, 2, True), (1, 0, True), (5, 1, False)]
+    ctx.rule += ('; simulator streams: the same functions on genuinely shared inputs (mpc.input, sender 0) for '
+                 '(m,t,prss) in %s incl. an aliasing stream (caller mutates the list it passed before awaiting)' % (configs,))
+    nsim = 0
+    for (m, t, noprss) in configs:
+        cfg = 'm=%d t=%d %s' % (m, t, 'no-prss' if noprss else 'prss')
+        cases = _sim_cases(rng, ctx.n(1, 3))
+        sim = Sim(m=m, t=t, no_prss=noprss, seed=ctx.seed * 1000 + 17 * m + t + (7 if noprss else 0),
+                  log_messages=False, track_tasks=False)
+        try:
+            sim.start()
+            if not sim.started:
+                violation('sim-start-failed ' + cfg, {'config': cfg})
+                continue
+            res = sim.run(_sim_prog(cases))
+            sim.shutdown()
+        finally:
+            sim.close()
+        bad = [r for r in res if not isinstance(r, list)]
+        if bad:
+            violation('sim-run-failed ' + cfg, {'config': cfg, 'results': [str(r)[:300] for r in res]})
+            continue
+        for i in range(1, m):
+            if res[i][1:] != res[0][1:]:
+                k = next(j for j in range(1, len(res[0])) if res[i][j] != res[0][j])
+                violation('sim-parties-disagree ' + cfg, {'config': cfg, 'case': str(cases[k - 1]), 'p0': str(res[0][k]),
+                                                          'p%d' % i: str(res[i][k])})
+        meta, outs = res[0][0], res[0][1:]
+        for c, got in zip(cases, outs):
+            nsim += 1
+            _sim_check(ctx, rng, st, cfg, meta, c, got)
+    ctx.extra['simulator_cases'] = nsim
+    ctx.extra['simulator_configs'] = [list(c) for c in configs]
+
+
+def _sim_check(ctx, rng, st, cfg, meta, c, got):
+    violation, model = st.violation, st.model
+    kind = c[0]
+    key = {'sim': cfg, 'case': list(c)}
+    rbits = lambda n: [rng.randrange(2) for _ in range(n)]
+    val = lambda bs: sum(b << i for i, b in enumerate(bs))
+
+    def bad(sig, want):
+        violation('%s [%s]' % (sig, cfg), dict(key, got=str(got)[:300], want=str(want)[:300]))
+
+    ctx.case(key, nontrivial=True, kind='sim %s %s' % (cfg, kind if kind not in ('alias', 'alias_to_from') else 'alias'))
+    if isinstance(got, str) and kind != 'to_bits_fld':
+        bad('sim-raises %s in %s' % (got, kind), 'no exception')
+        return
+    if kind == 'add_bits':
+        _, xb, yb, _ = c
+        want = bits_ref(val(xb) + val(yb), len(xb))
+        if got != want:
+            bad('add_bits-wrong n=%d' % len(xb), want)
+        model('add_bits %s %s' % (zlist(xb), zlist(yb)), got, key, 'add_bits')
+    elif kind == 'to_bits':
+        _, tn, A, l_arg = c
+        L, f = {'int8': (8, 0), 'int16': (16, 0), 'fxp84': (8, 4)}[tn]
+        l = L if l_arg is None else l_arg
+        integral = bool(f) and A % (1 << f) == 0
+        want = bits_ref(A, l)
+        if got != want:
+            bad('to_bits-wrong %s l=%d' % (tn, l), want)
+        lp = 0 if (integral and l <= f) else (l - f if integral else l)
+        # the result does not depend on the tape (to_bits_num_correct): any no-wrap tape serves for the model
+        model('to_bits_num %s %s %s %s %s %s %s %s' % (zlit(meta['p'][tn]), natlit(L), natlit(f), blit(integral), zlit(A),
+                                                   natlit(l), zlist(rbits(lp)), zlit(1)), got, key, 'to_bits')
+    elif kind == 'to_bits_fld':
+        _, q, a, l_arg = c
+        l = {256: 8, 101: 7}[q] if l_arg is None else l_arg
+        want = bits_ref(a, l)
+        if got != want:
+            bad('to_bits-wrong GF(%d) l=%d' % (q, l), want)
+        if q == 256:
+            model('to_bits_gf2 %s %s %s' % (zlit(a), natlit(l), zlist(rbits(l))), got, key, 'to_bits_gf2')
+        else:
+            model('to_bits_gfp %s %s %s %s %s %s' % (zlit(meta['pp101']), natlit(meta['bl101']), zlit(a), natlit(l),
+                                                   zlist(rbits(l)), zlit(1)), got, key, 'to_bits_gfp')
+    elif kind == 'from_bits':
+        p = meta['p']['int8']
+        want = val(c[1]) % p
+        if got % p != want:
+            bad('from_bits-wrong n=%d' % len(c[1]), want)
+        model('from_bits %s' % zlist(c[1]), (got % p, p), key, 'from_bits')
+    elif kind == 'from_to':
+        _, A, l = c
+        if got % meta['p']['int8'] != A % (1 << l):
+            bad('from_to_bits-wrong l=%d' % l, A % (1 << l))
+    elif kind == 'tz':
+        _, A, l_arg = c
+        l = 8 if l_arg is None else l_arg
+        t = v2(A, l) if l else None
+        upto = l if t is None else t + 1
+        want = bits_ref(A, l)[:upto]
+        if len(got) != l or got[:upto] != want or any(b not in (0, 1) for b in got):
+            bad('trailing_zeros-wrong l=%d' % l, want)
+        model('trailing_zeros %s %s %s %s %s %s' % (zlit(meta['p']['int8']), natlit(8), zlit(A), natlit(l), zlist(rbits(l)),
+                                                  zlit(1)), (got, upto), key, 'trailing_zeros_prefix')
+    elif kind == 'gcp2':
+        _, A, B, l_arg = c
+        l = 8 if l_arg is None else l_arg
+        cands = [t for t in ((v2(A, l), v2(B, l)) if l else ()) if t is not None]
+        want = 1 << (min(cands) if cands else l)
+        if got != want:
+            bad('gcp2-wrong l=%d' % l, want)
+        model('gcp2 %s %s %s %s %s %s %s %s %s' % (zlit(meta['p']['int8']), natlit(8), zlit(A), zlit(B), natlit(l),
+                                                zlist(rbits(l)), zlit(1), zlist(rbits(l)), zlit(1)), ('Some', got), key, 'gcp2')
+    elif kind == 'uv':
+        _, a, n = c
+        want = [0] * a + [1] + [0] * (n - 1 - a) if a < n else [1] + [0] * (n - 1)
+        if got != want:
+            bad('unit_vector-wrong n=%d a=%d' % (n, a), want)
+        model('unit_vector %s %s' % (zlit(a), zlit(n)), got, key, 'unit_vector')
+    elif kind == 'find':
+        _, xs, a, asec, bits, ename, fname = c
+        nlen = len(xs)
+        _, _, cf, ccs, ref_f, neg_ok = find_forms(nlen)[fname]
+        _, ce, e_val = find_e_forms(nlen)[ename]
+        ix = first_index(xs, a)
+        if got[0] == 'raw':
+            nf, y = got[1], got[2]
+            good = nf == (1 if ix is None else 0) and (ix is None or y == ref_f(ix))
+            gm = ('Some', (('Some', nf), y))
+        else:
+            y = got[1]
+            good = y == (ref_f(ix) if ix is not None else ref_f(e_val))
+            gm = ('Some', (None, y))
+        if not good:
+            bad('find-wrong e=%s form=%s' % (ename, fname), 'f(first index %s)' % ix)
+        model('find %s (%s) %s (%s) %s %s' % (zlist(xs), ('ASec %s' if asec else 'AInt %s') % zlit(a), blit(bits), ce, cf, ccs),
+              gm, key, 'find')
+    elif kind == 'alias':
+        _, fn, mode, xb, yb = c
+        p = meta['p']['int8']
+        want = {'from_bits': val(xb), 'sum': sum(xb), 'if_else': xb,
+                'vector_add': [u + v for u, v in zip(xb, yb)], 'vector_sub': [u - v for u, v in zip(xb, yb)],
+                'scalar_mul': [3 * u for u in xb], 'schur_prod': [u * v for u, v in zip(xb, yb)],
+                'in_prod': sum(u * v for u, v in zip(xb, yb)), 'add_bits': bits_ref(val(xb) + val(yb), len(xb)),
+                'find': first_index(xb, 0) if 0 in xb else len(xb), 'output': xb}[fn]
+        if got != want:
+            bad('aliasing-%s caller-%s' % (fn, mode), want)   # expected: the values at call time
+    elif kind == 'alias_to_from':
+        _, A, mode = c
+        if got % meta['p']['int8'] != A % 256:
+            bad('aliasing-from_bits(to_bits) caller-%s' % mode, A % 256)
+    elif kind == 'norm':
+        a = c[1] / 16
+        v, b = got
+        okv = v != 0 and abs(v) == 2.0 ** round(__import__('math').log2(abs(v))) and (v > 0) == (a > 0)
+        if not (okv and 0.5 - 2**-4 <= b <= 1.0):
+            bad('norm-wrong', 'v = sign(a) 2^j with 1/2 <= a v <= 1')
+    elif kind == 'recip':
+        a = c[1] / 16
+        if abs(got[0] - 1 / a) > 4 * 2**-4 * (1 + abs(1 / a)):
+            bad('reciprocal-wrong', 1 / a)
+
+
+def _evaluate(ctx, st, ok):
+    exprs, expect = st.exprs, st.expect
     # cases of the same result type are evaluated in batches: one Coq list per Eval
     groups, gmeta = [], []
     bykind = {}
@@ -671,6 +1078,9 @@ def _run(ctx, mpc, tape, rng, ok):
                 if what == 'from_bits':
                     got, p = impl
                     agree = (r % p if p else r) == got
+                elif what == 'trailing_zeros_prefix':
+                    got, upto = impl      # above the lowest 1 the bits depend on the (distributed) tape
+                    agree = isinstance(r, list) and len(r) == len(got) and r[:upto] == got[:upto]
                 else:
                     agree = norm(r) == norm(impl)
                 if not agree:
